@@ -61,7 +61,25 @@ func TestGovcReplayKeyID(t *testing.T) {
 			}
 		}
 	}
-	fmt.Println("no failing input found")
+	// a token created without an identifier must stay without one
+	{
+		tok, _ := govcToken(t)
+		if app, err := tok.Append(rand.Reader, govcBlock(tok, "foo")); err == nil {
+			if k := app.RootKeyID(); k != nil {
+				fmt.Printf("REPRODUCED: token built without a root key id; after Append RootKeyID() = %d (an identifier appeared)\n", *k)
+				t.Fail()
+				return
+			}
+		}
+		if sealed, err := tok.Seal(rand.Reader); err == nil {
+			if k := sealed.RootKeyID(); k != nil {
+				fmt.Printf("REPRODUCED: token built without a root key id; after Seal RootKeyID() = %d (an identifier appeared)\n", *k)
+				t.Fail()
+				return
+			}
+		}
+	}
+	fmt.Println("NOT-REPRODUCED: the root key id survives Append and Seal for 0, 7, 2^32-1 and for no id")
 }
 
 type govcFailingReader struct {
@@ -388,9 +406,20 @@ func TestGovcReplayFork(t *testing.T) {
 				t.Fatal(err)
 			}
 		}
+		parentBytes, _ := parent.Serialize()
 		c1, err := parent.Append(rand.Reader, govcBlock(parent, "left"))
 		if err != nil {
 			t.Fatal(err)
+		}
+		if after, _ := parent.Serialize(); !bytes.Equal(parentBytes, after) {
+			fmt.Printf("REPRODUCED: parent with %d appended blocks: Append changed the parent itself (%d bytes of its serialized form differ)\n", depth, govcDiff(parentBytes, after))
+			t.Fail()
+			return
+		}
+		if _, err := parent.Authorizer(pub); err != nil {
+			fmt.Printf("REPRODUCED: parent with %d appended blocks no longer verifies after Append was called on it: %v\n", depth, err)
+			t.Fail()
+			return
 		}
 		bytes1, _ := c1.Serialize()
 		ids1 := c1.RevocationIds()
